@@ -541,8 +541,70 @@ fn run_race(ctx: &Ctx) {
     out.finish("appender threads calling try_append in a loop while another thread drops the attach handle (real threads, the RwLock is the serialisation point); non-trivial = some entries delivered and some handed back");
 }
 
+/// Installation races: `n` threads leave a spinning rendezvous and install at the same moment on one empty slot —
+/// kind 0: `attach` on an unattached global, kind 1: `set_test_sink_for_tokio_runtime` on a runtime without a test
+/// sink.  Exactly one call may succeed (the others panic); an entry appended afterwards goes to the winner's sink and
+/// to no other; once the winner's handle / guard is dropped nothing reaches any racer's sink.
+/// case (kind n); observation ((sink succeeded?)..) (sinks that received the probe) (second probe reached nobody).
+fn attach_race_once(kind: u64, n: usize, delays: &[u64]) -> Sx {
+    enum H { A(AttachHandle), R(TokioRuntimeTestSinkGuard) }
+    let log: Log = Arc::new(Mutex::new(vec![]));
+    let rt = tokio::runtime::Builder::new_current_thread().build().unwrap();
+    let arrived = std::sync::atomic::AtomicUsize::new(0);
+    let mut results: Vec<(u64, Option<H>)> = vec![];
+    std::thread::scope(|sc| {
+        let mut joins = vec![];
+        for t in 0..n {
+            let (log, arrived, rth, delay) = (log.clone(), &arrived, rt.handle().clone(), delays[t]);
+            joins.push(sc.spawn(move || {
+                let id = 10 + t as u64;
+                arrived.fetch_add(1, std::sync::atomic::Ordering::SeqCst);
+                while arrived.load(std::sync::atomic::Ordering::SeqCst) < n { std::hint::spin_loop(); }
+                for _ in 0..delay { std::hint::spin_loop(); }
+                let h = if kind == 0 {
+                    crate::common::catch(move || H::A(RaceG::attach((RecSink { id, log: log.clone() }, JoinProbe { id, log }))))
+                } else {
+                    crate::common::catch(move || H::R(RaceG::set_test_sink_for_tokio_runtime(&rth, BoxEntrySink::new(RecSink { id, log }))))
+                };
+                (id, h)
+            }));
+        }
+        for j in joins { results.push(j.join().unwrap()); }
+    });
+    let probe = |e: u64| -> (bool, Vec<u64>) {
+        let _enter = if kind == 1 { Some(rt.enter()) } else { None };
+        let ok = RaceG::try_append(ent(e)).is_ok();
+        let to: Vec<u64> = log.lock().unwrap().iter().filter_map(|x| match x { Ev::Recv(d, y) if *y == e => Some(*d), _ => None }).collect();
+        (ok, to)
+    };
+    let (_, to) = probe(777);
+    let res: Vec<Sx> = results.iter().map(|(id, h)| Sx::L(vec![sx::n(*id), sx::boolean(h.is_some())])).collect();
+    for (_, h) in results.drain(..) { drop(h); }
+    let (ok2, to2) = probe(778);
+    Sx::L(vec![Sx::L(res), Sx::L(to.into_iter().map(sx::n).collect()), sx::boolean(!ok2 && to2.is_empty())])
+}
+fn run_attach_race(ctx: &Ctx) {
+    if std::env::var("C17_LOUD").is_err() { crate::common::quiet_panics(); }
+    let mut out = Out::new(ctx, "-arace");
+    let mut rng = Rng::new(ctx.seed ^ 0x1717);
+    let runs = if ctx.replay.is_some() { 200 } else if ctx.tier_thorough { 60000 } else { 4000 };
+    for i in 0..runs {
+        let kind = (i % 2) as u64;
+        let n = rng.range(2, 4) as usize;
+        let delays: Vec<u64> = (0..n).map(|_| *rng.pick(&[0u64, 0, 0, 1, 3, 10, 40])).collect();
+        let case = Sx::L(vec![sx::n(kind), sx::n(n as u64)]);
+        let imp = attach_race_once(kind, n, &delays);
+        let winners = imp.list()[0].list().iter().filter(|r| r.list()[1].num() == 1).count();
+        if winners != 1 { out.fail(format!("{} of {n} racing {} calls succeeded", winners, if kind == 0 { "attach" } else { "runtime test-sink install" }), &case); }
+        out.count(if kind == 0 { "attach_races" } else { "runtime_install_races" });
+        out.case(&case, &imp, true);
+    }
+    out.finish("2-4 real threads leave a spinning rendezvous and call attach on one unattached global (resp. install a test sink on one tokio runtime) at the same moment; exactly one may succeed, the entry appended afterwards reaches the winner's sink only, and nothing reaches a racer's sink once the winner's handle is dropped. Unscheduled (the window is a few instructions inside the macro-generated function)");
+}
+
 pub fn run(ctx: &Ctx) {
     run_race(ctx);
+    run_attach_race(ctx);
     if std::env::var("C17_LOUD").is_err() { crate::common::quiet_panics(); }
     let mut out = Out::new(ctx, "");
     if let Some(p) = &ctx.replay {
